@@ -128,10 +128,16 @@ CLAIMED = {
              '(gas-only reactions in the gas files, all others in the surface files), that every declared count equals '
              'the number of entries, and that every number written is the value the model gives under the same '
              'conditions (A or sticking coefficient, beta, Ea by the selected method and unit, site density, occupancy, '
-             'density, EA/RT per run, T/P/Q/abyv, mole fractions with 0 for absent species). It does NOT decide the '
-             'read-back clause (read_reactions is regular-expression matching on arbitrary text).',
-        note=STATIC_NOTE + 'Species names are distinct symbolic texts; coefficient values symbolic; E-format widths '
-             'assume |exponent| < 100; column cosmetics are not decided.',
+             'density, EA/RT per run, T/P/Q/abyv, mole fractions with 0 for absent species). Read-back: gas.inp and '
+             'surf.inp are written through the real writers into a file model and read with the real read_reactions, '
+             'whose regular expressions are decided on the abstract lines (pattern literal parsed, field alphabets '
+             'partitioned by the pattern\'s own character sets, spans lifted back; three sign/exponent spellings of the '
+             'printed numbers): reactants, products, coefficients and equation text are the model\'s, and a '
+             'str.replace that can reach into a species name is reported.',
+        note=STATIC_NOTE + 'Species names are distinct symbolic texts over the grammar letter + [letters, digits, ( ) * _]; '
+             'coefficient values symbolic; E-format widths assume |exponent| < 100; column cosmetics are not decided; '
+             're (stdlib) is used as the transfer function of pattern literals on representative spellings, outcomes '
+             'that depend on the spelling of a name are reported as notes.',
         ref='DESIGN.md section 4 C06'),
     'C07': dict(
         technique='abstract interpretation of the OpenMKM/Cantera writers and emitters: option values of every kind '
@@ -243,8 +249,10 @@ CLAIMED = {
              'sum x_i(g_i + ln(x_i p/n)) with the species\' own G/RT in the order of the amounts and its Jacobian is the '
              'exact gradient (2-4 species); the equality constraint is x.M minus the feed element totals and its '
              'Jacobian is its derivative (M transposed); amounts are bounded below by a positive constant; mole '
-             'fractions are x/sum(x); the feed totals are computed from the final element matrix. It does NOT decide '
-             'atom conservation, optimality or order independence of the composition SLSQP returns.',
+             'fractions are x/sum(x); Equilibrium.__init__ interpreted for networks over 1-4 elements (concrete '
+             'compositions, symbolic feeds, both species orders) builds the element list, the element matrix, the feed '
+             'element totals and the molar masses the property needs. It does NOT decide atom conservation, optimality '
+             'or order independence of the composition SLSQP returns.',
         note=STATIC_NOTE + 'SLSQP is an uninterpreted function; everything numeric about the solution is out of reach '
              'of static analysis.',
         ref='DESIGN.md section 4 C16'),
